@@ -29,6 +29,7 @@ def is_call_to(t, *names):
 
 class B:
     """Analysis wrapper around one MIR body."""
+    PROGRAM = None
 
     def __init__(self, body):
         self.b = body
@@ -166,6 +167,68 @@ class B:
             return ds[i] if i >= 0 else None
         return None
 
+    def reaching_defs(self, l, at):
+        """all whole-local definitions of l that can reach the position at=(bb, idx); -1 entries (the value at entry) are dropped"""
+        ds = self.defs().get(l, [])
+        if len(ds) <= 1 or at is None:
+            return list(ds)
+        bb, idx = at
+        lastin = None
+        for d in ds:
+            if d[1] == bb and d[0] == 's' and (idx is None or d[2] < idx):
+                if lastin is None or d[2] > lastin[2]:
+                    lastin = d
+        if lastin is not None:
+            return [lastin]
+        s = self._reach_in(l).get(bb) or ()
+        return [ds[i] for i in sorted(s) if i >= 0]
+
+    def ref_targets(self, pl, at, depth=0):
+        """The places a reference-valued place may point to at position `at`: follows copies, `Some(r)` / tuple literals that
+        are taken apart again, and every definition that can reach the position.  None entries: a target that is not a plain
+        borrow in this body (a call result, a parameter)."""
+        if depth > 12:
+            return [None]
+        projs = [e for e in (pl.get('p') or [])]
+        defs = self.reaching_defs(pl['l'], at)
+        if not defs:
+            return [None]
+        out = []
+        for d in defs:
+            if d[0] != 's':
+                out.append(None)
+                continue
+            rv = d[3]['rv']
+            at2 = (d[1], d[2])
+            if rv['k'] == 'ref' and not projs:
+                tp = rv['pl']
+                tps = tp.get('p') or []
+                if tps and tps[0] == '*':
+                    # a reborrow `&mut *r` / `&mut (*r).f`: whatever r points to (when r is itself a borrow made here)
+                    for bt in self.ref_targets({'l': tp['l'], 'p': []}, at2, depth + 1):
+                        out.append(tp if bt is None else {'l': bt['l'], 'p': list(bt.get('p') or []) + list(tps[1:])})
+                else:
+                    out.append(tp)
+            elif rv['k'] == 'use' and rv['op'].get('k') in ('cp', 'mv'):
+                pl2 = {'l': rv['op']['pl']['l'], 'p': list(rv['op']['pl'].get('p') or []) + projs}
+                out += self.ref_targets(pl2, at2, depth + 1)
+            elif rv['k'] == 'agg' and projs:
+                ps = projs
+                if isinstance(ps[0], dict) and 'dc' in ps[0]:
+                    if rv.get('vi') is not None and rv.get('vi') != ps[0]['dc']:
+                        continue            # another variant: this definition is not the one taken apart here
+                    ps = ps[1:]
+                if ps and isinstance(ps[0], dict) and 'f' in ps[0] and ps[0]['f'] < len(rv.get('ops') or []):
+                    op = rv['ops'][ps[0]['f']]
+                    if op.get('k') in ('cp', 'mv'):
+                        pl2 = {'l': op['pl']['l'], 'p': list(op['pl'].get('p') or []) + ps[1:]}
+                        out += self.ref_targets(pl2, at2, depth + 1)
+                        continue
+                out.append(None)
+            else:
+                out.append(None)
+        return out
+
     def _reach_in(self, l):
         cache = self.__dict__.setdefault('_reach_cache', {})
         if l in cache:
@@ -286,7 +349,33 @@ class B:
                         projs[0] = 'upvar:' + u['n']
         projs = tuple(projs)
         base = self._origin_local(pl['l'], depth, through_calls, at)
+        if base[0] == 'agg' and projs and depth < 40:
+            r = self._project_literal(base, projs, depth, through_calls)
+            if r is not None:
+                return r
         return self._with_projs(base, projs)
+
+    def _project_literal(self, base, projs, depth, through_calls):
+        """`(a, b).0`, `S { f: x }.f`, `(Some(x) as Some).0` of a tuple / struct / variant literal built in this body: the operand itself"""
+        rv = base[1]
+        ps = list(projs)
+        if rv.get('ak') == 'adt' and ps and ps[0].startswith('as:'):
+            if ps[0][3:] != str(rv.get('var')):
+                return None
+            ps = ps[1:]
+        if not ps or rv.get('ak') not in ('adt', 'tuple'):
+            return None
+        ops = rv.get('ops') or []
+        names = [str(x) for x in (rv.get('fn') or [])] if rv.get('ak') == 'adt' else [str(i) for i in range(len(ops))]
+        if len(names) != len(ops) or ps[0] not in names:
+            return None
+        o = self.origin(ops[names.index(ps[0])], depth + 1, through_calls, (base[2], None))
+        rest = tuple(ps[1:])
+        if o[0] == 'agg' and rest:
+            r = self._project_literal(o, rest, depth + 1, through_calls)
+            if r is not None:
+                return r
+        return self._with_projs(o, rest)
 
     @staticmethod
     def _proj_names(ps):
@@ -555,6 +644,7 @@ class Program:
             if b is None:
                 return None
             self._B[path] = B(b)
+            self._B[path].PROGRAM = self       # closures named by an aggregate can be looked up from inside a body analysis
         return self._B[path]
 
     def all(self, crate=None):
